@@ -41,3 +41,8 @@ claim("C17", "shared-state inventory over reconstructed emitted Go: package-vari
       "Structural race-freedom argument: every package-level variable of every emitted unit is read-only or once-initialised; client methods and request-serving closures write only call-local state (no store to the receiver, no mutation of its maps through an alias, no write/reset of a variable captured from registration time); registration has no closure over reassigned per-method variables; shared per-route slices are never stored through. Linearizability of results and races inside user code or libraries are not decided.",
       "sync.Once happens-before; protovalidate.Validator, http.Client, ServeMux and math/rand are safe for concurrent use.",
       "DESIGN.md 5/C17")
+
+claim("C11", "go/cfg path search and static types on the reconstructed server runtime; error-discipline and crash-construct scan over every parsed variant of every emitted Go unit",
+      "Structural only — the for-all-bytes part of C11 (what protojson/encoding/json/protovalidate do with arbitrary bytes, hangs, memory) is a fuzzing question outside this family and is NOT decided. Decided: no path of the emitted handler dispatches after an error response was written; the body binders test every error before any success return; every middleware failure is a *ValidationError (400); in every emitted decoder variant decode errors are propagated (success-arm-only sites only with a reasoned exception); emitted Go has no panic, bare type assertion, unguarded constant index or use of a result before its error test.",
+      "protojson is strict about token kinds per field; its bytes decoder accepts all base64 alphabets.",
+      "DESIGN.md 5/C11")
